@@ -14,7 +14,7 @@ The Jacobian clause of C17 (attitude error -> Euler error) is decided by ErrorTr
 """
 import math
 import numpy as np
-from . import tlc, filt, pool
+from . import tlc, filt, pool, exc
 
 INV = ["Proper", "NoseDirection", "DownInBody", "Conventions", "RoundTrip", "EulerIsAxisProduct", "ExpAxisGroupLaw", "DiagCubed", "Sense", "PairAngles"]
 ANG = {0: 0.0, 1: 90.0, 2: 180.0, 3: -90.0}
@@ -83,7 +83,9 @@ def exact_configs(m, cfgs):
                 if not np.allclose(got, Mi, rtol=0, atol=4e-16):
                     probs.append((c, "mat_from_rotvec(%s) is not the rotation about that axis: max |d| = %.3g" % (np.round(rv, 6).tolist(), np.abs(got - Mi).max())))
         except Exception as e:
-            probs.append((c, "%s raised %s: %s" % (tag, type(e).__name__, str(e)[:100])))
+            if not exc.entered_pyins(e):
+                raise
+            probs.append((c, "%s: the library raised %s" % (tag, exc.describe(e))))
     return probs
 
 
